@@ -14,6 +14,7 @@ func init() {
 	vRegister("H_C13_EncryptedLengthCap", H_C13_EncryptedLengthCap)
 	vRegister("H_C14_Packet", H_C14_Packet)
 	vRegister("H_C14_Stream", H_C14_Stream)
+	vRegister("H_C14_StreamRotation", H_C14_StreamRotation)
 }
 
 // vDrain runs the real packet handler goroutine until the handoff queues are empty, then stops it.
@@ -525,4 +526,51 @@ func H_C13_EncryptedLengthCap() {
 	vAssert(conn.pos <= 2*4096, "c13.enclen.body-not-read-beyond-the-cap")
 	vAssert(conn.closed >= 1, "c13.enclen.closed")
 	vCover("c13.enclen")
+}
+
+// C14 x rotation on the stream path: a genuine stream sealed under a key that the receiver removes while the
+// stream is still arriving (after any prefix: label header, type byte, length prefix, part of the ciphertext)
+// has no effect; without the removal it is accepted.
+func H_C14_StreamRotation() {
+	ca, cb := vBaseConfig(), vBaseConfig()
+	cb.Name = vPeerA
+	key, key2 := vBytes(16), vBytes(16)
+	vAssume(!vEqBytes(key, key2))
+	label := string(vBytes(vPick(2)))
+	kra, _ := NewKeyring(nil, key)
+	krb, _ := NewKeyring([][]byte{key}, key2)
+	ca.Keyring, cb.Keyring = kra, krb
+	ca.Label, cb.Label = label, label
+	fa, fb := vNewML(ca), vNewML(cb)
+	fb.vAddSelfNamed(vPeerA)
+	fb.del = &vDelegateRec{}
+	cb.Delegate = fb.del
+	p1 := vBytes(3)
+	out := &vConn{}
+	fa.tr.conn = out
+	vAssert(fa.m.sendUserMsg(Address{Addr: "10.0.0.2:7946", Name: vPeerA}, p1) == nil, "c14.rot.send-ok")
+	lo := labelOverhead(label)
+	conn := &vConn{in: out.out}
+	removed := false
+	if vPick(2) == 1 {
+		cuts := []int{lo, lo + 1, lo + 3, lo + 5, lo + 6, lo + 18, len(out.out) - 1}
+		conn.stallAt = cuts[vPick(len(cuts))]
+		vAssume(conn.stallAt < len(out.out))
+		conn.onStall = func() {
+			vAssert(krb.RemoveKey(key) == nil, "c14.rot.remove-ok")
+			removed = true
+		}
+	}
+	scheduled := conn.onStall != nil
+	fb.m.handleConn(conn)
+	if scheduled {
+		vAssert(removed, "c14.rot.stalled")
+	}
+	if removed {
+		vAssert(len(fb.del.msgs) == 0, "c14.rot.removed-key-mid-stream-refused")
+		vCover("c14.rot.refused")
+	} else {
+		vAssert(len(fb.del.msgs) == 1 && vEqBytes(fb.del.msgs[0], p1), "c14.rot.genuine-accepted")
+		vCover("c14.rot.accepted")
+	}
 }
